@@ -995,4 +995,15 @@ MUTANTS = [
 
             // If we pushed a non-zero amount of PDI bytes, process the response
             if let Some((bytes_in_this_chunk, _pdu_handle)) = pushed_chunk {""")]},
+    # ---------------- ERRDROP (error discipline) ----------------
+    {"id": "err-c11-eeprom-mode-send-dropped", "property": "C11", "expect": "C11.err|SubDeviceRef::set_eeprom_mode|adaptor:Result::ok",
+     "edits": [("src/subdevice/mod.rs", "            .send(self.maindevice, mode)\n            .await?;\n\n        Ok(())", "            .send(self.maindevice, mode)\n            .await\n            .ok();\n\n        Ok(())")]},
+    {"id": "err-c09-new-mode-result-ignored", "property": "C09", "expect": "C09.err|SubDevice::new|unused", "also": ["C11"],
+     "edits": [("src/subdevice/mod.rs", "        subdevice_ref.set_eeprom_mode(SiiOwner::Master).await?;\n\n        let eeprom = subdevice_ref.eeprom();", "        let _ = subdevice_ref.set_eeprom_mode(SiiOwner::Master).await;\n\n        let eeprom = subdevice_ref.eeprom();")]},
+    {"id": "err-c02-mark-received-cas-dropped", "property": "C02", "expect": "C02.err|ReceivingFrame::mark_received", "also": ["C03"],
+     "edits": [("src/pdu_loop/frame_element/receiving_frame.rs", "                PduError::InvalidFrameState\n            })?;", "                PduError::InvalidFrameState\n            })\n            .ok();")]},
+    {"id": "err-c15-extend-dropped", "property": "C15", "expect": "C15.err|", "also": ["C16"],
+     "edits": [("src/mailbox/coe/mod.rs", "                buf.extend_from_slice(response.get(..length).ok_or(Error::Internal)?)\n                    .map_err(|_| Error::Internal)?;", "                let _ = buf.extend_from_slice(response.get(..length).ok_or(Error::Internal)?);")]},
+    {"id": "n-err-explicit-match", "property": "C11", "neutral": True, "also": ["C09"],
+     "edits": [("src/subdevice/mod.rs", "        subdevice_ref.set_eeprom_mode(SiiOwner::Master).await?;\n\n        let eeprom = subdevice_ref.eeprom();", "        match subdevice_ref.set_eeprom_mode(SiiOwner::Master).await {\n            Ok(()) => {}\n            Err(e) => return Err(e),\n        }\n\n        let eeprom = subdevice_ref.eeprom();")]},
 ]
